@@ -19,6 +19,9 @@ def ListOfDicts_init (truth : Term → Bool) : Out :=
   let eff4 : Term := (Term.app "setattr" [(Term.sym "self"), (Term.sym "_predecessor"), (Term.sym "None")]);
   Out.fall [eff0, eff1, eff2, eff3, eff4]
 
+/-- the decorators of dataiter/list_of_dicts.py: ListOfDicts.__init__, outermost first -/
+def ListOfDicts_init_decorators : List String := []
+
 /-- dataiter/list_of_dicts.py: ListOfDicts._new (sha256 of the function source: 896a760aaaf7e011) -/
 def ListOfDicts_new (truth : Term → Bool) : Out :=
   let new' : Term := (Term.app ".__class__" [(Term.sym "self"), (Term.sym "dicts"), (Term.app "=as_is" [(Term.sym "True")])]);
@@ -26,15 +29,24 @@ def ListOfDicts_new (truth : Term → Bool) : Out :=
   let eff1 : Term := (Term.app "setattr" [new', (Term.sym "_predecessor"), (Term.sym "self")]);
   Out.ret [eff0, eff1] new'
 
+/-- the decorators of dataiter/list_of_dicts.py: ListOfDicts._new, outermost first -/
+def ListOfDicts_new_decorators : List String := []
+
 /-- dataiter/list_of_dicts.py: ListOfDicts.__deepcopy__ (sha256 of the function source: 2115d0b9f19d77b6) -/
 def ListOfDicts_deepcopy (truth : Term → Bool) : Out :=
   let new' : Term := (Term.app ".__class__" [(Term.sym "self"), (Term.app "map" [(Term.sym "copy.deepcopy"), (Term.sym "self")]), (Term.app "=as_is" [(Term.sym "True")])]);
   let eff0 : Term := (Term.app "setattr" [new', (Term.sym "_group_keys"), (Term.app "._group_keys" [(Term.sym "self")])]);
   Out.ret [eff0] new'
 
+/-- the decorators of dataiter/list_of_dicts.py: ListOfDicts.__deepcopy__, outermost first -/
+def ListOfDicts_deepcopy_decorators : List String := []
+
 /-- dataiter/list_of_dicts.py: ListOfDicts.__copy__ (sha256 of the function source: 4d81bfa2b7fe6e21) -/
 def ListOfDicts_copy (truth : Term → Bool) : Out :=
   Out.ret [] (Term.app "._new" [(Term.sym "self"), (Term.sym "self")])
+
+/-- the decorators of dataiter/list_of_dicts.py: ListOfDicts.__copy__, outermost first -/
+def ListOfDicts_copy_decorators : List String := []
 
 /-- dataiter/list_of_dicts.py: ListOfDicts._mark_obsolete (sha256 of the function source: f28eef876f7e4755) -/
 def ListOfDicts_mark_obsolete (truth : Term → Bool) : Out :=
@@ -46,6 +58,9 @@ def ListOfDicts_mark_obsolete (truth : Term → Bool) : Out :=
     let eff0 : Term := (Term.app "setattr" [(Term.sym "self"), (Term.sym "_obsolete"), (Term.sym "True")]);
     Out.fall [eff0]
 
+/-- the decorators of dataiter/list_of_dicts.py: ListOfDicts._mark_obsolete, outermost first -/
+def ListOfDicts_mark_obsolete_decorators : List String := []
+
 /-- dataiter/list_of_dicts.py: ListOfDicts.__getattribute__ (sha256 of the function source: a8de21611f165ea9) -/
 def ListOfDicts_getattribute (truth : Term → Bool) : Out :=
   let value' : Term := (Term.app "super().__getattribute__" [(Term.sym "name")]);
@@ -56,15 +71,24 @@ def ListOfDicts_getattribute (truth : Term → Bool) : Out :=
   else
     Out.ret [] value'
 
+/-- the decorators of dataiter/list_of_dicts.py: ListOfDicts.__getattribute__, outermost first -/
+def ListOfDicts_getattribute_decorators : List String := []
+
 /-- dataiter/deco.py: obsoletes.wrapper (sha256 of the function source: 17886f707cd2e2ec) -/
 def deco_obsoletes_wrapper (truth : Term → Bool) : Out :=
   let value' : Term := (Term.app "function" [(Term.sym "self"), (Term.app "*" [(Term.sym "args")]), (Term.app "=**" [(Term.sym "kwargs")])]);
   let eff0 : Term := (Term.app "._mark_obsolete" [(Term.sym "self")]);
   Out.ret [eff0] value'
 
+/-- the decorators of dataiter/deco.py: obsoletes.wrapper, outermost first -/
+def deco_obsoletes_wrapper_decorators : List String := ["functools.wraps(function)"]
+
 /-- dataiter/deco.py: new_from_generator.wrapper (sha256 of the function source: 0126d48e1ed23c37) -/
 def deco_new_from_generator_wrapper (truth : Term → Bool) : Out :=
   let value' : Term := (Term.app "function" [(Term.sym "self"), (Term.app "*" [(Term.sym "args")]), (Term.app "=**" [(Term.sym "kwargs")])]);
   Out.ret [] (Term.app "._new" [(Term.sym "self"), value'])
+
+/-- the decorators of dataiter/deco.py: new_from_generator.wrapper, outermost first -/
+def deco_new_from_generator_wrapper_decorators : List String := ["functools.wraps(function)"]
 
 end DI.Gen
